@@ -159,7 +159,14 @@ func (r *runner) judge(t *testing.T, sc *world.Scenario, count bool) []oracle.Vi
 		}
 	}
 	if count && !r.frozen {
-		r.stats.Evaluations++
+		if res.Evals > 0 {
+			r.stats.Evaluations += res.Evals
+		} else {
+			r.stats.Evaluations++
+		}
+		for _, k := range res.NTKeys {
+			r.nt[k] = true
+		}
 		r.stats.Unspecified += res.Unspecified
 		for l, n := range res.Labels {
 			r.stats.Labels[l] += n
@@ -227,6 +234,24 @@ func RunCheck(t *testing.T, c Check) {
 		if bad := r.judge(t, sc, true); len(bad) > 0 {
 			rt.Fatalf("%s", bad[0].String())
 		}
+	})
+}
+
+// RunEnum judges an enumerated list of cases (bounded-exhaustive sub-spaces); it stops at the
+// first violation, whose case is the replay file.
+func RunEnum(t *testing.T, c Check, cases func(yield func(*world.Scenario) bool)) {
+	r := newRunner(c)
+	defer world.CleanScratch()
+	defer r.flush()
+	if !r.runRegress(t) {
+		return
+	}
+	cases(func(sc *world.Scenario) bool {
+		if bad := r.judge(t, sc, true); len(bad) > 0 {
+			t.Errorf("%s", bad[0].String())
+			return false
+		}
+		return true
 	})
 }
 
